@@ -222,6 +222,34 @@ func c07Gen(r *Rand, tier string, emit func(op any)) {
 			}
 		}
 	}
+	// 1a. a context that ENDS in an open namespace, over a JSON leaf, a console leaf (id 3) and an observer: entries
+	//     without call-site fields, then with fields, then children derived before and after those entries
+	nsRoot := nodeJ{T: "tee", Cs: []nodeJ{{T: "leaf", ID: 1, IO: true, En: &enabJ{K: "fn", Mask: 0x7f}}, {T: "leaf", ID: 3, IO: true, En: &enabJ{K: "fn", Mask: 0x7f}},
+		{T: "leaf", ID: 2, IO: false, En: &enabJ{K: "fn", Mask: 0x7f}}}}
+	for _, derive := range []string{"with", "lazy", "fields"} {
+		for _, pre := range []int{0, 1, 2} {
+			fs := []fldJ{}
+			for i := 0; i < pre; i++ {
+				fs = append(fs, fldJ{Key: 10 + i, Kind: 2, Val: i, Ref: -1})
+			}
+			fs = append(fs, fldJ{Key: 20, Kind: 1, Ref: -1}) // the namespace is the last field of the context
+			for _, firstLen := range []int{0, 1} {
+				steps := []c07Step{{S: derive, P: 0, Fs: fs}, // node 1
+					{S: "with", P: 1, Fs: []fldJ{{Key: 30, Kind: 2, Val: 3, Ref: -1}}}} // node 2: derived before any entry
+				first := []fldJ{}
+				if firstLen == 1 {
+					first = []fldJ{{Key: 40, Kind: 3, Val: 4, Ref: -1}}
+				}
+				steps = append(steps, c07Step{S: "log", P: 1, L: 1, Fs: first}, c07Step{S: "log", P: 1, L: 1, Fs: []fldJ{}},
+					c07Step{S: "log", P: 1, L: 2, Fs: []fldJ{{Key: 41, Kind: 2, Val: 5, Ref: -1}}},
+					c07Step{S: "with", P: 1, Fs: []fldJ{{Key: 31, Kind: 2, Val: 6, Ref: -1}}}, // node 3: derived after the field-less entry
+					c07Step{S: "log", P: 3, L: 1, Fs: []fldJ{{Key: 42, Kind: 2, Val: 7, Ref: -1}}},
+					c07Step{S: "log", P: 2, L: 1, Fs: []fldJ{}}, c07Step{S: "log", P: 2, L: 1, Fs: []fldJ{{Key: 43, Kind: 2, Val: 8, Ref: -1}}},
+					c07Step{S: "log", P: 0, L: 1, Fs: []fldJ{{Key: 44, Kind: 2, Val: 9, Ref: -1}}})
+				emit(c07Op{K: "prog", Tree: nsRoot, Atomics: []int{}, Cells: []int{}, Steps: steps})
+			}
+		}
+	}
 	// 1b. slog handlers: a chain of d pending groups, then two siblings derived from its end, used in both orders
 	//     (slice capacities 0,1,2,4,8 are crossed by d = 0…9); the same for chains of With on loggers over observers
 	for d := 0; d <= 9; d++ {
